@@ -220,7 +220,11 @@ func framingCase(thorough bool) harness.Case {
 // oversized: a hand-made client announces more than the limit
 func oversizedCase() harness.Case {
 	return harness.Case{ID: "framing/oversized", Run: func(c *harness.C) {
-		for _, announce := range []uint32{maxBuff + 1, 1 << 31, 1<<32 - 1} {
+		lens := []uint32{maxBuff + 1, 1 << 31, 1<<32 - 1}
+		if os.Getenv("VERIF_FAMILY") == "oversized" {
+			lens = []uint32{maxBuff + 1, 2 * maxBuff, 1<<31 - 1, 1 << 31, 1<<31 + 1, 3 << 30, 1<<32 - 2, 1<<32 - 1}
+		}
+		for _, announce := range lens {
 			announce := announce
 			c.Exec(fmt.Sprintf("[oversized] %d", announce))
 			bubble(c, func() {
@@ -249,7 +253,7 @@ func oversizedCase() harness.Case {
 					for _, m := range got {
 						ds = append(ds, fmt.Sprintf("%d bytes", len(m.Data)))
 					}
-					c.Violation("oversized-refused", "c17-oversized-frame-accepted", fmt.Sprintf("a frame announcing %d bytes: received %v (expected only the frame before it, and the connection closed)", announce, ds), map[string]interface{}{"announce": announce})
+					c.Violation("oversized-refused", strings.ToLower(propName())+"-oversized-frame-accepted", fmt.Sprintf("a frame announcing %d bytes: received %v (expected only the frame before it, and the connection closed)", announce, ds), map[string]interface{}{"announce": announce})
 				}
 				conn.Close()
 				w.close()
@@ -468,6 +472,18 @@ func fullQueueCase() harness.Case {
 				w.nodes[1].send.Send(s.typ, s.topic, s.data, 3)
 			}
 			settle(30 * time.Second)
+			// the queue of the dead peer is full now: one Send call addressed to the dead and the
+			// healthy peer together still reaches the healthy one, whichever is listed first
+			for i := 0; i < 24; i++ {
+				s := sent{2, topic32("live"), []byte(fmt.Sprintf("b%04d", i))}
+				want = append(want, s)
+				if i%2 == 0 {
+					w.nodes[1].send.Send(s.typ, s.topic, s.data, 3, 2)
+				} else {
+					w.nodes[1].send.Send(s.typ, s.topic, s.data, 2, 3)
+				}
+			}
+			settle(30 * time.Second)
 			compare(c, "full-queue: traffic 1->2", w.nodes[2].col.Snapshot(), 1, want, nil)
 			w.close()
 		})
@@ -500,9 +516,44 @@ func burstCase(n int) harness.Case {
 	}}
 }
 
+// idleCase: a connection that has been idle for a while still carries the next messages.
+func idleCase(gap time.Duration) harness.Case {
+	return harness.Case{ID: fmt.Sprintf("idle/%v", gap), Run: func(c *harness.C) {
+		c.Exec(fmt.Sprintf("[idle] %v between two messages", gap))
+		bubble(c, func() {
+			w := newNet(2, false)
+			var want []sent
+			snd := func(i int) {
+				s := sent{2, topic32("idle"), []byte(fmt.Sprintf("m%02d", i))}
+				want = append(want, s)
+				w.nodes[1].send.Send(s.typ, s.topic, s.data, 2)
+			}
+			snd(0)
+			settle(2 * time.Second)
+			time.Sleep(gap)
+			snd(1)
+			snd(2)
+			settle(2 * time.Second)
+			time.Sleep(gap)
+			snd(3)
+			settle(20 * time.Second)
+			compare(c, fmt.Sprintf("connection idle for %v: traffic 1->2", gap), w.nodes[2].col.Snapshot(), 1, want, map[string]interface{}{"idle": gap.String()})
+			w.close()
+		})
+		c.Add("executions", 1)
+		c.Add("evaluations", 1)
+		c.Outcome(fmt.Sprintf("idle|%v", gap))
+	}}
+}
+
 func gen(c *harness.C) []harness.Case {
 	if os.Getenv("VERIF_FAMILY") == "threads" {
 		return threadCases(c)
+	}
+	if os.Getenv("VERIF_FAMILY") == "oversized" {
+		// slice for C10: a frame header announcing any length above the limit (including those
+		// with the top bit set) from an authenticated peer neither crashes nor wedges the receiver
+		return []harness.Case{oversizedCase()}
 	}
 	c.Note("rule", "real net package (ServiceConnections, NewSocketRemoteParty, Send, sendMessages, readMsg) over in-memory TLS 1.3 in a bubble; payload lengths {0,1,2,31,32,33,255,256,65535,65536,1MiB,limit-1,limit} x legal type/topic combinations; frames announcing more than the limit; every interleaving of the Send calls of 2-3 goroutines x 2-3 messages to two destinations; each fault of the third peer (never accepts, never reads with back-pressure, closes after k bytes for k over the first two frames, garbles back, queue full) while traffic to the healthy peer continues for a virtual minute; distinct_nontrivial = distinct cells")
 	if !dialSeam {
@@ -541,10 +592,20 @@ func gen(c *harness.C) []harness.Case {
 		cases = append(cases, failingCase("starts-late", k, "default"))
 	}
 	cases = append(cases, fullQueueCase())
+	for _, g := range []time.Duration{time.Second, 4 * time.Second, 6 * time.Second, 11 * time.Second, 31 * time.Second, 2 * time.Minute, 10 * time.Minute, 2 * time.Hour, 25 * time.Hour} {
+		cases = append(cases, idleCase(g))
+	}
 	for _, n := range []int{999, 1000, 1001, 1500, 3000} {
 		cases = append(cases, burstCase(n))
 	}
 	return cases
 }
 
-func TestCheck(t *testing.T) { harness.Main(t, "C17", gen) }
+func propName() string {
+	if p := os.Getenv("VERIF_PROP"); p != "" {
+		return p
+	}
+	return "C17"
+}
+
+func TestCheck(t *testing.T) { harness.Main(t, propName(), gen) }
